@@ -171,6 +171,16 @@ impl Ctx {
         }
     }
 
+    /// Worker threads evaluate under a virtual clock that does not move (hook H1): wherever the
+    /// library's 1 ms default time limit applies (`Biscuit::authorizer()`, restored policies) a
+    /// loaded machine would otherwise turn an outcome into `Timeout` and make two sides of a
+    /// comparison differ. C10, whose subject is the budgets, drives the clock itself.
+    pub fn freeze_clock(&self) {
+        if self.property != "C10" {
+            biscuit_auth::verif_hooks::verif_clock::enable();
+        }
+    }
+
     pub fn set_rule(&self, r: &str) {
         let mut g = self.rule.lock().unwrap();
         if !g.is_empty() {
@@ -291,6 +301,7 @@ impl Ctx {
                 std::thread::Builder::new()
                     .stack_size(64 << 20)
                     .spawn_scoped(scope, move || {
+                        self.freeze_clock();
                         let seed = derive_seed(self.seed, &format!("{}/{}", self.property, sub), w);
                         let config = Config {
                             cases: per as u32,
@@ -372,6 +383,7 @@ impl Ctx {
                 std::thread::Builder::new()
                     .stack_size(64 << 20)
                     .spawn_scoped(scope, move || {
+                        self.freeze_clock();
                         let mut reported: HashSet<String> = HashSet::new();
                         for case in part {
                             let mut rep = Report::default();
